@@ -124,7 +124,20 @@ class ByteInterval(Node):
     address = _IndexedAttribute[typing.Optional[int]]()(
         lambda self: self.section
     )
-    size = _IndexedAttribute[int]()(lambda self: self.section)
+    _indexed_size = _IndexedAttribute[int]()(lambda self: self.section)
+
+    @property
+    def size(self) -> int:
+        return self._indexed_size
+
+    @size.setter
+    def size(self, value: int) -> None:
+        self._indexed_size = value
+        # If the size is changed to a value that is less than the size of
+        # the contents, the contents must be truncated (ByteInterval.md).
+        contents = getattr(self, "contents", None)
+        if contents is not None and len(contents) > value:
+            self.contents = contents[:value]
 
     def __init__(
         self,
